@@ -74,8 +74,9 @@ def ecb4x (w : List UInt64) (skExp : List UInt64) (nrounds : Nat) : List UInt8 :
 /-- `sub_word(x)`: q = {x, 0, …}; ortho; Sbox; ortho; (uint32_t)q[0] -/
 def subWordC (x : UInt64) : UInt64 :=
   (orthoQ (sboxQ (orthoQ ((x &&& 0xffffffff) :: List.replicate 7 0)))).getD 0 0 &&& 0xffffffff
-/-- `tmp = (tmp << 24) | (tmp >> 8)` in uint32_t arithmetic -/
-def rotWordC (t : UInt64) : UInt64 := ((t <<< UInt64.ofNat 24) ||| (t >>> UInt64.ofNat 8)) &&& 0xffffffff
+/-- `tmp = (tmp << 24) | (tmp >> 8)` in uint32_t arithmetic (`tmp` is a uint32_t: only its low 32 bits exist) -/
+def rotWordC (t : UInt64) : UInt64 :=
+  (((t &&& 0xffffffff) <<< UInt64.ofNat 24) ||| ((t &&& 0xffffffff) >>> UInt64.ofNat 8)) &&& 0xffffffff
 
 /-- the word expansion loop of `br_aes_ct64_keysched` for key_len = 32, driven by the extracted control data `ks_ops`:
     skey[0..59] -/
